@@ -335,8 +335,8 @@ class CSSStyleSheet(cssutils.stylesheets.StyleSheet):
             {
                 'S': S,
                 'COMMENT': COMMENT,
-                'CDO': lambda *ignored: None,
-                'CDC': lambda *ignored: None,
+                'CDO': lambda expected, *ignored: expected,
+                'CDC': lambda expected, *ignored: expected,
                 'CHARSET_SYM': charsetrule,
                 'FONT_FACE_SYM': fontfacerule,
                 'IMPORT_SYM': importrule,
